@@ -387,7 +387,7 @@ def main(tier, replay=None):
     res.coverage["known_finding_F20_reproduced"] = st.f20
     res.coverage["exhaustive"] = False
     res.coverage["rule"] = (
-        "corpus (F14, F15, F20a-d, two observations, multi-level list entries M1-M4, ports of every mode P1-P2, seven clocked shapes K1-K7) first; then random processes from the family: 1-4 top-level statements, "
+        "corpus (F14, F15, F20a-d, two observations, multi-level list entries M1-M4, ports of every mode P1-P2, a passive process in an entity E1, seven clocked shapes K1-K7) first; then random processes from the family: 1-4 top-level statements, "
         "nesting <= 3 (thorough: also 4) of signal/variable assignments (simple, conditional, selected, force, release), "
         "if/elsif/else, case, for/while/plain loops with next/exit, procedure calls (positional and named; in, inout, out), "
         "assert/report, null; expressions over bit, integer, bit_vector, array, record and boolean signals, variables, "
@@ -401,7 +401,11 @@ def main(tier, replay=None):
         "the family (signal in a target index, slice bound or assert report), 5% at the boundary of the clock heuristic; "
         "sensitivity-list entries with up to three levels of indexing/slicing (arrays of arrays, element of a slice) and the "
         "selected package signal; out-mode signal actuals (po/pov) in ~2%. non-trivial = a combinational in-family process with >= 1 missing and >= 1 "
-        "superfluous signal expected, or a clocked process; distinct by hash of id+AST. Incremental stage (linter cache): "
+        "superfluous signal expected, or a clocked process; distinct by hash of id+AST. Placement: one process in twelve is a "
+        "passive process (ports and package signal only, no signal assignment) in the statement part of an ENTITY; the others "
+        "rotate through the architecture statement part, a block, if / for / case generate and block-in-generate nesting; "
+        "1/4 labelled, 1/10 postponed. Project configuration: the library is named MyLib / lib / DSP_Core2 / WORKLIB per "
+        "project (history stage: lib1 MyLib DSP_Core / Lib_2b lib2 WORKLIB / third party VENDOR Third_P lib3). Incremental stage (linter cache): "
         "corpus histories H1-H6 + 150 (thorough 3000) random histories of 2-4 update_source+analyse steps on ONE Project "
         "(3 libraries, one third party; entities c20_e/c20_f per library; 6 architecture files with 0-2 architectures of "
         "1-3 generated processes; steps: rename an architecture, empty a file, replace its architectures, new processes, "
